@@ -317,6 +317,16 @@ impl Database {
             }
         }
 
+        // Transactions without a COMMIT in the log are losers: like a ROLLBACK at run time, mark
+        // them aborted so that versions they wrote to the data file are never visible.
+        {
+            let mut pager = self.pager.write();
+            for loser in analysis.needs_undo.iter() {
+                pager.mark_transaction_aborted(*loser);
+            }
+        }
+        self.coordinator.load_aborted_transactions();
+
         let (tx_ctx, logger) = Self::begin_transaction(
             self.coordinator.clone(),
             self.pager.clone(),
